@@ -288,7 +288,7 @@ def builder(prog, chk):
 
 # ------------------------------------------------------------------------------------------------ the two writers agree
 
-KNOWN_VAR = re.compile(r"^(t\d+_(self|a\d|atype|data|raw)|rm[0-9a-f]+$|rq[0-9a-f]+_ghostq$|cast\d+_|bswap\d+_|rd\d+@in:|xor\d+_)")
+KNOWN_VAR = re.compile(r"^(t\d+_(self|a\d|atype|data|raw)|rm[0-9a-f]+$|rq[0-9a-f]+_ghostq$|cast\d+_|bswap\d+_|byte\d+_[0-9a-f]+$|rd\d+@in:|xor\d+_)")
 
 
 def seg_equal(st, a, b):
